@@ -34,7 +34,9 @@ std::string genGo(Rng& r, const pg::GenPos& gp, long long costNs, const GoOpts& 
     if (kind < 25) {
         long long d = r.range(1, maxDepth);
         go += " depth " + std::to_string(d);
-        if (d > 6 || r.chance(0.3)) go += " nodes " + std::to_string(d > 6 ? std::max<long long>(T, 20000) : T); // deep searches always carry a node cap
+        // deep searches always carry a node cap: with the 'extreme' network (poor move ordering) a depth-6 search of a
+        // middlegame position can exceed the node budget of a run
+        if (d > 4 || r.chance(0.3)) go += " nodes " + std::to_string(d > 4 ? std::max<long long>(T, 20000) : T);
     } else if (kind < 45) {
         go += " nodes " + std::to_string(T);
     } else if (kind < 60) {
